@@ -149,9 +149,24 @@ def runs(item):
         for _ in range(nrand):
             errs.append(tuple(int(q) for q in np.nonzero(rng.random(n) < p)[0]))
     out = []
+    # the noise model the decoder is built for: the automaton is the same whatever it is.
+    # With a deformed model only Z errors inside the model's support are decoded (a pure X
+    # channel, XZZX-deformed, puts Z errors on the qubits of the deformed axis)
+    dnames = getattr(type(code), 'deformation_names', []) or []
+    models = [PauliErrorModel(0, 0, 1), PauliErrorModel(1 / 3, 1 / 3, 1 / 3)]
+    if 'XZZX' in dnames:
+        models.append(PauliErrorModel(1, 0, 0, deformation_name='XZZX'))
+        models.append(PauliErrorModel(0.9, 0, 0.1, deformation_name='XZZX'))
+    supports = []
+    for em_ in models:
+        pd_ = em_.probability_distribution(code, 0.1)
+        supports.append({int(q) for q in np.nonzero((np.asarray(pd_[2]) > 0) | (np.asarray(pd_[3]) > 0))[0]})
     for k, err in enumerate(errs):
         seed = k % (2 if tier == 'quick' else 5)
-        dec = HOME[dname][0](code, PauliErrorModel(0, 0, 1), 0.1, seed=seed)
+        mi = (k // 2) % len(models)
+        if not {int(q) for q in err} <= supports[mi]:
+            mi = 0
+        dec = HOME[dname][0](code, models[mi], 0.1, seed=seed)
         log = logged_decode(dec, code, err, qidx)
         log.update({'kind': 'run', 'n': int(n), 'stabs': st, 'faces': fc, 'err': [int(q) for q in err],
                     'toggles': [],
